@@ -23,6 +23,7 @@ struct Case {
     std::vector<CL> coef;   // exactly representable in T
     std::vector<CL> genRoots; // for modes 1..3 (before rounding of coefficients)
     double minSep;  // relative separation of generated roots (mode 1)
+    int hugeBits = 0; // > 0: all coefficients were multiplied by 2^hugeBits (exactly), largest modulus in [1e155, 1e300]
 };
 
 template <class T> CL roundTo(CL x) { return CL((LD)(T)x.real(), (LD)(T)x.imag()); }
@@ -98,6 +99,15 @@ Case decode(const pbt::Tape& t) {
     }
     for (auto& x : c.coef) x = c.isFloat ? roundTo<float>(x) : roundTo<double>(x);
     if (std::abs(c.coef[0]) == 0) c.coef[0] = CL(1, 0);
+    // near-overflow common factor (1 case in 8 of the eligible ones; word 0 = off): the root set does not depend on a common
+    // factor, and a power of two changes no mantissa -- exercises the root finders' overflow-protection rescaling.
+    // Eligible: double precision, complex coefficients, moderate overall scale (the real-coefficient and large-root paths
+    // carry listed findings of their own).
+    { pbt::Reader g3(t[0]); g3.skip(8); const int sel = g3.pick(8), extra = g3.pick(480);
+      if (sel == 7 && !c.isFloat && c.cplx && c.kind == 2 && std::fabs(scaleExp) <= 2) {   // general degree only: CPOLY has explicit overflow-protection scaling, the closed-form quadratic and cubic do not (they overflow near 1e155)
+          LD mx = 0; for (auto& x : c.coef) mx = std::max(mx, std::abs(x));
+          if (mx > 0) { int k = (int)std::ceil(std::log2((LD)1e155L / mx)) + extra; while (mx * std::pow((LD)2, (LD)k) > (LD)1e300L) --k;
+              if (k > 0) { for (auto& x : c.coef) x = CL(std::ldexp(x.real(), k), std::ldexp(x.imag(), k)); c.hugeBits = k; } } } }
     return c;
 }
 
@@ -139,6 +149,7 @@ void property(const pbt::Tape& t, pbt::Ctx& ctx) {
     {   // domain guard: coefficients must be finite, normal numbers of T with head-room for the
         // solver's own intermediate products (inputs outside are not polynomials the API accepts)
         LD hi = c.isFloat ? 1e18L : 1e150L, lo = c.isFloat ? 1e-18L : 1e-150L;
+        if (c.hugeBits) { hi = 1e301L; lo = std::min((LD)1e150L, lo * std::pow((LD)2, (LD)c.hugeBits)); }   // the near-overflow class: same relative range, shifted up
         for (auto& a : c.coef) { LD m = std::abs(a); if (!(m <= hi) || (m != 0 && m < lo)) { ctx.reject("coefficient-range"); return; } }
     }
     std::vector<CL> roots; std::string exc;
@@ -146,6 +157,7 @@ void property(const pbt::Tape& t, pbt::Ctx& ctx) {
     static const char* modeName[] = {"raw", "separated", "clustered", "symmetric"};
     ctx.label(std::string(c.kind == 0 ? "quad" : c.kind == 1 ? "cubic" : "general") + (c.cplx ? "/complex" : "/real") + (c.isFloat ? "/float" : "/double"));
     ctx.label(std::string("mode:") + modeName[c.mode]);
+    if (c.hugeBits) { ctx.label("coefficients:near-overflow-common-factor"); if (ctx.wantDesc) ctx.desc << "all coefficients multiplied by 2^" << c.hugeBits << "\n"; }
     if (!ok) { ctx.reject("solver-exception"); if (ctx.wantDesc) ctx.desc << "exception: " << exc.substr(0, 200) << "\n"; return; }
     const int n = c.deg;
     if (ctx.wantDesc) { ctx.desc << "roots="; for (auto& r : roots) ctx.desc << show(r) << " "; ctx.desc << "\n"; }
@@ -283,7 +295,7 @@ void property(const pbt::Tape& t, pbt::Ctx& ctx) {
 }
 
 pbt::Config config() {
-    pbt::Config c; c.prop = "C30"; c.K = 8; c.minUnits = 2;
+    pbt::Config c; c.prop = "C30"; c.K = 10; c.minUnits = 2;
     c.quick = {100000, 300000, 22, 30}; c.thorough = {400000, 1500000, 22, 300};
     c.rule = "rapidcheck tape -> polynomial: kind {Vec<3>,Vec<4>,Vector_} x {real,complex} x {float,double} x mode {raw coefficients, separated roots, multiple/clustered roots, symmetric +-z pairs}, degree 2..20 (number of tape units), scale 1e-6..1e6. Non-trivial: degree >= 3, or quadratic with zero linear coefficient, or multiple/clustered/symmetric roots; distinct by tape hash.";
     c.assumptions = {"long double evaluation of p(r) is exact enough to judge double/float residuals", "rpoly/cpoly exceptions ('failure to find any roots') are clean rejections", "class constants C from DESIGN C30 calibration (probe J)"};
@@ -306,7 +318,7 @@ pbt::Config config() {
         ctx.desc << "float complex cubic x^3+(19829172+179076320i)x: worst |p(r)|/sum|a_i||r|^i = " << worst << "\n";
         ctx.check(worst < 1e-2, "returned roots have relative residual " + pbt::str(worst) + " (garbage) without an exception");
     }});
-    c.requiredLabels = {"quad/real/double", "cubic/real/double", "general/real/double", "general/complex/double", "mode:clustered", "quad:b==0", "forward-checked"};
+    c.requiredLabels = {"coefficients:near-overflow-common-factor", "quad/real/double", "cubic/real/double", "general/real/double", "general/complex/double", "mode:clustered", "quad:b==0", "forward-checked"};
     return c;
 }
 } // namespace
